@@ -170,6 +170,7 @@ class Stats:
         self.discarded: Dict[str, int] = {}
         self.per_part: Dict[str, Dict[str, int]] = {}
         self.exhaustive_parts: Dict[str, int] = {}
+        self.known_samples: Dict[str, Any] = {}
 
     def add(self, part: str, case, res: Result):
         pp = self.per_part.setdefault(part, {'evaluations': 0, 'nontrivial': 0, 'discarded': 0})
@@ -199,9 +200,11 @@ class Stats:
                 'events': self.events, 'samples_first': self.samples_first,
                 'samples_low': self.samples_low, 'known_hit': self.known_hit,
                 'discarded': self.discarded, 'per_part': self.per_part,
-                'exhaustive_parts': self.exhaustive_parts}
+                'exhaustive_parts': self.exhaustive_parts, 'known_samples': self.known_samples}
 
     def merge(self, d):
+        for k, v in d.get('known_samples', {}).items():
+            self.known_samples.setdefault(k, v)
         self.evaluations += d['evaluations']
         before = len(self.nontrivial)
         self.nontrivial.update(d['nontrivial'])
@@ -278,6 +281,7 @@ class Evaluator:
             fid = self.classify(part, case, d)
             if fid is not None:
                 self.stats.known_hit[fid] = self.stats.known_hit.get(fid, 0) + 1
+                self.stats.known_samples.setdefault(fid, {'part': part.name, 'case': case})
             else:
                 unlisted.append(d)
         return res, unlisted
@@ -488,6 +492,7 @@ def write_evidence(check: Check, tier: str, seed: int, stats: Stats, n_viol: int
         'per_part': stats.per_part,
         'event_histogram': dict(sorted(stats.events.items())),
         'known_findings_hit': stats.known_hit,
+        'known_finding_first_case': stats.known_samples,
         'discarded': stats.discarded,
         'discard_ratio': (total_disc / max(1, total_disc + stats.evaluations)),
     }
